@@ -126,6 +126,16 @@ def lookupTab (tab : List (List Nat × Nat)) (k : List Nat) : Option Nat :=
 def lowerByte (c : Nat) : Nat := if 65 ≤ c && c ≤ 90 then c + 32 else c
 def lowerAscii (l : List Nat) : List Nat := l.map lowerByte
 
+/-- strings.ToLower as far as the lexer can observe it: ASCII letters, and the two non-ASCII code
+    points whose lower case is ASCII — U+0130 `İ` (C4 B0) ↦ `i`, U+212A `K` (E2 84 AA) ↦ `k` — so
+    `İf` is the keyword `if` and `İ` a valid identifier. Every other non-ASCII rune stays
+    non-ASCII (never part of a keyword, symbol or name; its exact bytes only show in error texts). -/
+def lowerGo : List Nat → List Nat
+  | 0xC4 :: 0xB0 :: r => 105 :: lowerGo r
+  | 0xE2 :: 0x84 :: 0xAA :: r => 107 :: lowerGo r
+  | c :: r => lowerByte c :: lowerGo r
+  | [] => []
+
 /-- string(rune) for a rune or EOF, restricted to what the symbol lookup can see -/
 def runeKey : Option Nat → List Nat
   | some r => if r < 128 then [lowerByte r] else [0xEF, 0xBF, 0xBD]    -- non-ASCII never matches a symbol
@@ -435,14 +445,14 @@ def lexToken (l : L) : L × Next :=
   else
     let l := { l with start := l.pos }
     let l := lexNumberBlock l
-    let kc := lowerAscii (l.slice l.start l.pos)
+    let kc := lowerGo (l.slice l.start l.pos)
     let isNum := (match kc with | c :: _ => 48 ≤ c && c ≤ 57 | [] => false) && !(kc.contains 10) && validFloat kc
     if isNum then (l.emit tNUMBER kc false false, Next.token)
     else
       let l := if kc.length > 0 then l.backup (l.pos - l.start) else l
       let l := lexTextBlock l
       let ic := l.slice l.start l.pos
-      let kc := lowerAscii ic
+      let kc := lowerGo ic
       match (lookupTab keywordBytes kc).orElse (fun _ => lookupTab symbolBytes kc) with
       | some t => (l.emitToken t, Next.token)
       | none =>
